@@ -91,8 +91,14 @@ impl<'a> G<'a> {
             _ => (*self.r.pick(&["+", "*", "-", "<", "&&"])).to_string(),
         };
         let keep = self.reg.infix.get(&name).map(|e| (e.prec, e.right));
+        // the SAME handler (one Arc, cloned) registered again under the same name with another
+        // precedence / associativity: the new configuration must win although the handler is unchanged
+        let same_handler = match self.reg.infix.get(&name) {
+            Some(InfixEntry { imp: Impl::H(h0), setter: false, .. }) if self.r.chance(1, 3) => Some(*h0),
+            _ => None,
+        };
         let (prec, right) = match keep {
-            Some((p, r)) if self.r.chance(1, 3) => (p, r),
+            Some((p, r)) if same_handler.is_none() && self.r.chance(1, 3) => (p, r),
             _ => {
                 let p = self.pick_prec();
                 let right = self.level_assoc(p, &name).unwrap_or_else(|| p == 20 || self.r.chance(1, 2));
@@ -102,7 +108,10 @@ impl<'a> G<'a> {
         // never share a level with the assignment operators (their associativity is RIGHT and
         // they are SETTERs: mixed levels are outside what the property defines)
         let (prec, right) = if prec == 20 { (21, self.level_assoc(21, &name).unwrap_or(right)) } else { (prec, right) };
-        let h = self.marker(HKind::Infix);
+        let h = match same_handler {
+            Some(h0) => h0,
+            None => self.marker(HKind::Infix),
+        };
         self.reg.infix.insert(name.clone(), InfixEntry { prec, setter: false, right, imp: Impl::H(h) });
         Op::RegIn { name, prec, setter: false, right, h }
     }
@@ -337,6 +346,11 @@ pub fn gen_case(r: &mut Prng, big: bool) -> (Case, [u64; 4]) {
         // registered must be what every other thread uses afterwards
         let op = if g.r.chance(1, 8) { Op::OnThread { ops: vec![op] } } else { op };
         g.case.pre.push(op);
+        if want_reg && !g.case.shared.is_empty() && g.r.chance(1, 3) {
+            // a kept AST evaluated through exec() as the very next engine call after a registration
+            // (no parse, execute or register_* in between that could refresh anything)
+            g.case.pre.push(Op::ExecShared { ast: g.r.usize(g.case.shared.len()), ctx: CtxRef::Fresh(CtxSpec::empty()) });
+        }
     }
     // the history always ends with a chain over the final table
     let last = g.chain(false);
